@@ -389,6 +389,12 @@ class DictList(list):
     def insert(self, index: int, entity: Object) -> None:
         """Insert entity before index."""
         self._check(entity.id)
+        # list.insert clamps the index; the positions stored must be the actual ones
+        length = len(self)
+        if index < 0:
+            index = max(0, index + length)
+        elif index > length:
+            index = length
         list.insert(self, index, entity)
         # all subsequent entries now have been shifted up by 1
         _dict = self._dict
@@ -504,7 +510,8 @@ class DictList(list):
             self._generate_index()
             return
         _dict = self._dict
-        _dict.pop(removed.id)
+        # the removal itself succeeded, so a negative index was in range
+        index = _dict.pop(removed.id)
         for i, j in _dict.items():
             if j > index:
                 _dict[i] = j - 1
